@@ -23,6 +23,10 @@ claimed = {
    text="Proof obligations over the real tables and the real cell code: (a) edge-table bits are exactly the sign changes and triangle rows name exactly the crossing edges, (b) interior directed edges cancel within every one of the 256 configurations, (c) for all 3 x 4096 face-adjacent configuration pairs the net face segments of one cell are the reverses of the neighbour's, (d) face segments have the solid corner on the same side as the single-corner anchor whose normal points to the void; mcToTriangles is shown by symbolic execution (corner coordinates and values symbolic, all 256 sign patterns x all degeneracy outcomes) to return exactly the table's triangles with the table's winding minus the ones its degeneracy test rejects; mcInterpolate lies on the lattice edge, is the linear zero crossing, and is symmetric in its end points (so neighbouring cells compute the identical vertex); Degenerate(0) holds iff two vertices coincide. The gluing argument from these lemmas to 'closed oriented surface' is prose (A8(ii)); caller corner/value pairing and padding are not yet under contract.",
    design_ref="8.5",
    technique="contract-based deductive verification: exhaustive ground lemmas over tables read from the working tree's init + symbolic execution of the cell code against the table specification + SMT-discharged contracts on interpolation"),
+ "C06": dict(
+   text="Reduced scope, proved: (1) every vertex the cell code creates lies on its lattice edge, is the linear zero crossing of the two corner values (exactly, off the 1e-12 snapping branches; a corner when snapped), so for an affine field f(v)=0 in real arithmetic; (2) for any 1-Lipschitz field |f(v)| <= h (edge length) - lemma over the real mcInterpolate; (3) value/coordinate pairing: marchingCubes hands each cell its eight corner coordinates base+(x,y,z)*inc in table order together with the cached values at exactly those lattice indices (layer index formula proved), the lattice has ceil(size/step) >= 1 cells per axis of size <= step that tile the box exactly; the octree/quadtree leaves pair corners and values likewise (C07); in 2D the whole chain is proved down to the field: the line cache holds the shape's values at its lattice points and marchingSquares hands msToLines the shape's values at the four corner points. NOT proved here: that layerYZ.Evaluate's batched concurrent evaluation fills the 3D layer correctly (trusted summary), the sphere bound h^2/(8(R-h)), Hausdorff distance both ways, normals vs gradient, second-order volume convergence (not_decided).",
+   design_ref="8.6",
+   technique="contract-based deductive verification: loop invariants and per-iteration obligations over a ghost log of summarised calls, modular contracts with frame (havoc) clauses, lemma with proof script for the Lipschitz bound"),
  "C07": dict(
    text="For both the octree (march3x.go) and the quadtree (march2x.go): proved that the distance cache returns the lattice point and the shape's value there and keeps the invariant 'every cached entry is the shape's value at its key' (symbolic map); that the half-diagonal table holds 1/2*sqrt(D)*2^i*resolution; the pruning lemma - for a 1-Lipschitz field, isEmpty(c) implies that at every point of the cube the field has the sign of the centre value (so no lattice cell inside changes sign); and the one-level contract of processCube/processSquare - a pruned cube emits and visits nothing, a finest cube emits exactly the cell of its 2^D lattice corners in table order with the shape's values at those corners, a coarser cube visits each of its 2^D children (origin + 2^(n-1)*delta, level n-1) exactly once and nothing else, recursive calls being summarised by the same contract. The induction over depth, the empty-leaf lemma for all-non-negative / zero-at-a-corner cells and the top-level sizing are prose / not_decided.",
    design_ref="8.7",
